@@ -12099,6 +12099,9 @@ class Procedure_Declaration_Stmt(StmtBase):  # R1211
             tmp = line[:i].rstrip()
             if tmp and tmp[0] == ",":
                 proc_attr_spec_list = Proc_Attr_Spec_List(repmap(tmp[1:].lstrip()))
+            elif tmp:
+                # Unexpected text between the interface and "::".
+                return None
             line = line[i + 2 :].lstrip()
         return proc_interface, proc_attr_spec_list, Proc_Decl_List(repmap(line))
 
